@@ -77,6 +77,11 @@ func (in *Interp) policyCall(caller *frame, fn *ssa.Function, pkgPath string, ar
 					return s, true
 				}
 			}
+			if fn.Name() == "Sprintf" {
+				if r, ok := in.sprintfExact(args[0], in.materialize(args[1])); ok {
+					return r, true
+				}
+			}
 			return in.newOpaqueStr("fmt." + fn.Name()), true
 		case "Errorf":
 			return in.newOpaqueErr("fmt.Errorf"), true
@@ -970,6 +975,10 @@ func (in *Interp) recordHash(a *hashApp) {
 			return
 		}
 	}
+	if !a.output.IsConst() {
+		// preimage resistance for the all-zero digest (aergo uses 32 zero bytes as "no hash")
+		in.addLemma(c.Not(c.Eq(a.output, c.BV(big.NewInt(0), 256))))
+	}
 	for _, b := range in.hashApps {
 		if a.output.IsConst() && b.output.IsConst() {
 			continue
@@ -1188,4 +1197,80 @@ func sortedStubList(m map[string]int) []string {
 	}
 	sort.Strings(k)
 	return k
+}
+
+// sprintfExact evaluates Sprintf for formats made of literal text, %s / %v on strings and byte slices and %d / %v on
+// concrete integers; anything else is left opaque.
+func (in *Interp) sprintfExact(format value, args sliceV) (value, bool) {
+	f, ok := format.(string)
+	if !ok {
+		return nil, false
+	}
+	var out []*smt.Term
+	lit := func(s string) {
+		for i := 0; i < len(s); i++ {
+			out = append(out, in.ctx.BVu(uint64(s[i]), 8))
+		}
+	}
+	ai := 0
+	for i := 0; i < len(f); i++ {
+		if f[i] != '%' {
+			lit(f[i : i+1])
+			continue
+		}
+		i++
+		if i >= len(f) {
+			return nil, false
+		}
+		if f[i] == '%' {
+			lit("%")
+			continue
+		}
+		if f[i] != 's' && f[i] != 'v' && f[i] != 'd' {
+			return nil, false
+		}
+		if ai >= len(args) {
+			return nil, false
+		}
+		a, _ := args[ai].(iface)
+		ai++
+		if a.t == nil {
+			return nil, false
+		}
+		switch v := a.v.(type) {
+		case string, *symStr:
+			if f[i] == 'd' {
+				return nil, false
+			}
+			if _, isStr := a.t.Underlying().(*types.Basic); !isStr || in.hasMethod(a.t, "String") || in.hasMethod(a.t, "Error") {
+				return nil, false
+			}
+			out = append(out, in.strBytes(v)...)
+		case *smt.Term:
+			b := basicOf(a.t)
+			if b == nil || b.Info()&types.IsInteger == 0 || !v.IsConst() || f[i] == 's' {
+				return nil, false
+			}
+			if in.hasMethod(a.t, "String") || in.hasMethod(a.t, "Error") {
+				return nil, false
+			}
+			lit(in.termInt(v, a.t).String())
+		default:
+			return nil, false
+		}
+	}
+	if ai != len(args) {
+		return nil, false
+	}
+	return in.mkStr(out), true
+}
+
+func (in *Interp) hasMethod(t types.Type, name string) bool {
+	ms := in.prog.MethodSets.MethodSet(t)
+	for i := 0; i < ms.Len(); i++ {
+		if ms.At(i).Obj().Name() == name {
+			return true
+		}
+	}
+	return false
 }
